@@ -8,6 +8,16 @@
     - AcceptStream: one execution of the loop body under the mutex ([in_accept]); [RParked]
       means "entry not there, goroutine goes (back) to the select".  Wake-ups of acceptors
       are therefore environment choices; every safety theorem holds for all of them.
+    Why one step per wake-up is enough: between "receive from the wait channel" (or from
+    ctx.Done) and the mutex.Lock that follows, other critical sections may run.  The receive only
+    empties the caller's own one-slot channel; every other critical section either does not touch
+    that channel or re-fills it (maybeUnblockOpenSync for the head) / closes it, and the woken
+    caller re-reads closeErr, nextStream, maxStream under the lock.  So the receive can be moved
+    right before the caller's critical section without changing any observable (argued, not proved).
+    Likewise GetOrOpenStream's read-locked check and write-locked loop are one step: frames are
+    handled by one goroutine, and DeleteStream/AcceptStream in between only raise maxStream.
+    Out of the model: GetOrOpenStream after CloseWithError panics in Go (send on the closed
+    newStreamChan); the harness never drives that (no peer frames after the connection closed).
     Definitions only; proofs are in Proofs*.v. *)
 From Coq Require Import List ZArith Bool.
 From V Require Import Gen.Params.
